@@ -1,7 +1,280 @@
 package main
 
 import (
+	"fmt"
+	"go/ast"
+	"go/parser"
+	"go/token"
+	"os"
+	"path/filepath"
+	"regexp"
+	"sort"
+	"strings"
+
 	c "verif/harness/common"
 )
 
-func handlerStage(o *c.Out) {}
+// Stage "handlers": re-derive, from the source of the six token handlers in api/, every
+// control-flow path as a list of events
+//   A        call of a.Authorize
+//   Aerr/Aok the error branch of the `if err != nil` guarding that call / falling through it
+//   A?       an Authorize call whose result is not guarded in one of the two recognised shapes
+//   E:<name> call of a method or helper whose name says it signs, renews, rekeys or revokes
+//   nott     the branch of Revoke for a request without a token (mTLS revocation)
+//   ret      return
+//   X:<what> a construct holding events that the walker does not understand (fails closed)
+// and print them in canonical order; the driver prints the table of the Lean model, which
+// `nothing_happens` is proved about.
+
+var handlerFiles = []struct{ file, fn string }{
+	{"api/sign.go", "Sign"}, {"api/ssh.go", "SSHSign"}, {"api/sshRenew.go", "SSHRenew"},
+	{"api/sshRekey.go", "SSHRekey"}, {"api/sshRevoke.go", "SSHRevoke"}, {"api/revoke.go", "Revoke"},
+}
+
+var effectName = regexp.MustCompile(`(?i)(sign|renew|rekey|revoke)`)
+var harmless = regexp.MustCompile(`^(log|Log|New|new|get|Is|is|render|certChain)|Request$|Response$|Options$`)
+
+type walker struct {
+	pendingAuth bool
+}
+
+// events of one simple statement / expression, in source order
+func (wk *walker) events(n ast.Node) []string {
+	var out []string
+	if n == nil {
+		return nil
+	}
+	ast.Inspect(n, func(x ast.Node) bool {
+		switch v := x.(type) {
+		case *ast.FuncLit:
+			out = append(out, "X:funclit")
+			return false
+		case *ast.CallExpr:
+			name, recv := "", ""
+			switch f := v.Fun.(type) {
+			case *ast.SelectorExpr:
+				name = f.Sel.Name
+				if id, ok := f.X.(*ast.Ident); ok {
+					recv = id.Name
+				}
+			case *ast.Ident:
+				name = f.Name
+			}
+			// arguments are evaluated before the call
+			for _, a := range v.Args {
+				out = append(out, wk.events(a)...)
+			}
+			switch {
+			case recv == "a" && name == "Authorize":
+				out = append(out, "A")
+			case recv == "provisioner" || recv == "authority" || recv == "errs" || recv == "render" || recv == "read":
+			case name != "" && effectName.MatchString(name) && !harmless.MatchString(name):
+				out = append(out, "E:"+name)
+			}
+			return false
+		}
+		return true
+	})
+	return out
+}
+
+func isErrNotNil(e ast.Expr) bool {
+	b, ok := e.(*ast.BinaryExpr)
+	if !ok || b.Op != token.NEQ {
+		return false
+	}
+	x, ok1 := b.X.(*ast.Ident)
+	y, ok2 := b.Y.(*ast.Ident)
+	return ok1 && ok2 && x.Name == "err" && y.Name == "nil"
+}
+
+func isOTTNotEmpty(e ast.Expr) bool {
+	b, ok := e.(*ast.BinaryExpr)
+	if !ok || b.Op != token.NEQ {
+		return false
+	}
+	x, ok1 := b.X.(*ast.SelectorExpr)
+	y, ok2 := b.Y.(*ast.BasicLit)
+	if !ok1 || !ok2 || x.Sel.Name != "OTT" || y.Value != `""` {
+		return false
+	}
+	id, ok := x.X.(*ast.Ident)
+	return ok && id.Name == "body"
+}
+
+type path struct {
+	ev   []string
+	done bool
+}
+
+func extend(ps []path, evs ...string) []path {
+	out := make([]path, len(ps))
+	for i, p := range ps {
+		if p.done {
+			out[i] = p
+			continue
+		}
+		out[i] = path{ev: append(append([]string{}, p.ev...), evs...)}
+	}
+	return out
+}
+
+func contains(evs []string, x string) bool {
+	for _, e := range evs {
+		if e == x {
+			return true
+		}
+	}
+	return false
+}
+
+// block walks a statement list over every live path.
+func (wk *walker) block(stmts []ast.Stmt, in []path) []path {
+	cur := in
+	pending := false // the previous statement assigned err from a.Authorize
+	for _, st := range stmts {
+		switch v := st.(type) {
+		case *ast.ReturnStmt:
+			evs := []string{}
+			for _, r := range v.Results {
+				evs = append(evs, wk.events(r)...)
+			}
+			if pending {
+				evs = append([]string{"A?"}, evs...)
+			}
+			cur = extend(cur, append(evs, "ret")...)
+			for i := range cur {
+				cur[i].done = true
+			}
+			pending = false
+		case *ast.IfStmt:
+			initEv := wk.events(v.Init)
+			condEv := wk.events(v.Cond)
+			guardsAuth := false
+			switch {
+			case pending && v.Init == nil && isErrNotNil(v.Cond):
+				guardsAuth = true
+			case contains(initEv, "A") && isErrNotNil(v.Cond):
+				guardsAuth = true
+			case pending:
+				cur = extend(cur, "A?")
+			case contains(initEv, "A") || contains(condEv, "A"):
+				initEv = append(initEv, "A?")
+			}
+			pending = false
+			cur = extend(cur, append(initEv, condEv...)...)
+			thenIn, elseIn := cur, cur
+			switch {
+			case guardsAuth:
+				thenIn, elseIn = extend(cur, "Aerr"), extend(cur, "Aok")
+			case isOTTNotEmpty(v.Cond):
+				elseIn = extend(cur, "nott")
+			}
+			thenOut := wk.block(v.Body.List, thenIn)
+			var elseOut []path
+			switch e := v.Else.(type) {
+			case nil:
+				elseOut = elseIn
+			case *ast.BlockStmt:
+				elseOut = wk.block(e.List, elseIn)
+			default:
+				elseOut = wk.block([]ast.Stmt{e}, elseIn)
+			}
+			cur = mergePaths(thenOut, elseOut)
+		case *ast.ForStmt, *ast.RangeStmt, *ast.SwitchStmt, *ast.TypeSwitchStmt, *ast.SelectStmt, *ast.GoStmt, *ast.DeferStmt, *ast.LabeledStmt, *ast.BranchStmt:
+			if pending {
+				cur = extend(cur, "A?")
+				pending = false
+			}
+			if evs := wk.events(st); len(evs) > 0 {
+				cur = extend(cur, fmt.Sprintf("X:%T", st))
+			}
+		case *ast.BlockStmt:
+			if pending {
+				cur = extend(cur, "A?")
+				pending = false
+			}
+			cur = wk.block(v.List, cur)
+		default:
+			if pending {
+				cur = extend(cur, "A?")
+				pending = false
+			}
+			evs := wk.events(st)
+			cur = extend(cur, evs...)
+			if contains(evs, "A") {
+				// recognised shape 1: `x, err := a.Authorize(...)` directly followed by `if err != nil`
+				as, ok := st.(*ast.AssignStmt)
+				okShape := ok && len(as.Lhs) == 2
+				if okShape {
+					id, isID := as.Lhs[1].(*ast.Ident)
+					okShape = isID && id.Name == "err"
+				}
+				if okShape {
+					pending = true
+				} else {
+					cur = extend(cur, "A?")
+				}
+			}
+		}
+	}
+	if pending {
+		cur = extend(cur, "A?")
+	}
+	return cur
+}
+
+func mergePaths(a, b []path) []path {
+	seen := map[string]bool{}
+	var out []path
+	for _, p := range append(append([]path{}, a...), b...) {
+		k := fmt.Sprint(p.done, p.ev)
+		if !seen[k] {
+			seen[k] = true
+			out = append(out, p)
+		}
+	}
+	return out
+}
+
+func handlerPaths(repo, file, fn string) (string, error) {
+	fset := token.NewFileSet()
+	f, err := parser.ParseFile(fset, filepath.Join(repo, file), nil, 0)
+	if err != nil {
+		return "", err
+	}
+	for _, d := range f.Decls {
+		fd, ok := d.(*ast.FuncDecl)
+		if !ok || fd.Recv != nil || fd.Name.Name != fn || fd.Body == nil {
+			continue
+		}
+		wk := &walker{}
+		ps := wk.block(fd.Body.List, []path{{}})
+		set := map[string]bool{}
+		for _, p := range ps {
+			// paths that never reach Authorize nor an effect say nothing; keep one representative
+			set[strings.Join(p.ev, ",")] = true
+		}
+		var out []string
+		for k := range set {
+			out = append(out, k)
+		}
+		sort.Strings(out)
+		return strings.Join(out, ";"), nil
+	}
+	return "", fmt.Errorf("function %s not found in %s", fn, file)
+}
+
+func handlerStage(o *c.Out) {
+	repo := os.Getenv("VERIF_REPO")
+	if repo == "" {
+		repo = "/repo"
+	}
+	for _, h := range handlerFiles {
+		impl, err := handlerPaths(repo, h.file, h.fn)
+		if err != nil {
+			impl = "extract-failed"
+		}
+		o.Case("handler name="+h.fn, impl)
+	}
+}
